@@ -10,7 +10,9 @@ exit 2  inconclusive (build failure, time-out, worker death, vacuous run) - neve
 import argparse, hashlib, json, os, re, shutil, subprocess, sys, tempfile, time
 
 ROOT = os.path.dirname(os.path.dirname(os.path.abspath(__file__)))
-HARNESS = os.path.join(ROOT, "harness")
+# development aid: sensitivity runs may build a copy of the harness whose go.mod points at a scratch worktree of /repo
+# (run/dev/eval_mutants.sh); registered commands never set VERIF_HARNESS_DIR
+HARNESS = os.environ.get("VERIF_HARNESS_DIR") or os.path.join(ROOT, "harness")
 BUILD = os.path.join(ROOT, ".build")
 REPO = "/repo"
 
